@@ -20,7 +20,7 @@ CLAIMS = {
         text="Static decision of the whole property: linkage of every header definition (clang AST), exactly-one external provider for "
              "every declared symbol (IR of the Makefile's unit list), and exhaustive compile/link witnesses over the finite configuration "
              "space in the property's quantifier (each header alone, each ordered pair, all, twice -- each witness also names one function of every header it includes, so a header silently skipped in a combination is noticed; 1 and 2 client units; libcstl.a and "
-             "libcstl.so; also a client built without NDEBUG against the release library). The compiler front end and the linker are the analysers; nothing is executed.",
+             "libcstl.so; also a client built without NDEBUG against the release library); (H6) every macro the headers leave defined carries the library prefix (preprocessor). The compiler front end and the linker are the analysers; nothing is executed.",
         technique="AST linkage rule + symbol-provision rule over IR + exhaustive compile/link witnesses"),
     'C20': dict(
         text="Decides, for every path of every public smart-pointer / array entry point (whole-library inlined IR), that the first guard "
@@ -37,7 +37,7 @@ CLAIMS['C09'] = dict(
          "committed only in the success region of realloc, which is handed the current block; (V3) at() returns only under i < count "
          "and aborts only under count <= i; (V4) resize changes count / runs xtors only after re-checking sz <= cap, aborting "
          "otherwise, and reserve grows only when sz > cap; (V7) the scratch slot used by sort/reverse is element index cap and the "
-         "setter allocates (request+1)*size; (V8) swap exchanges every member of the two vectors, the constructor/destructor description included; (V9) giving up the storage also sets the capacity to 0; (V10) resize steps the count (constructs / destroys) only in the direction of the request, and sets it directly only where no registered constructor / destructor is skipped (path-sensitive with a store/load model of the count); (V11) no element pointer read before a reallocation is used after it; (V12) sort/search/find/reverse hand the raw-array routines base, element COUNT and element size; (V13) a capacity set to 0 goes with an element count of 0 on that path (size <= capacity); V2/V7 are judged with private helpers inlined (allocation and commit may be split); (V14) every store / effectful call made by the assertion-enabled build is also made by the NDEBUG build (no work inside assert()). Constructor/destructor exactly-once counts and byte preservation beyond realloc's "
+         "setter allocates (request+1)*size; (V8) swap exchanges every member of the two vectors, the constructor/destructor description included; (V9) giving up the storage also sets the capacity to 0; (V10) resize steps the count (constructs / destroys) only in the direction of the request, and sets it directly only where no registered constructor / destructor is skipped (path-sensitive with a store/load model of the count); (V11) no element pointer read before a reallocation is used after it; (V12) sort/search/find/reverse hand the raw-array routines base, element COUNT and element size; (V13) a capacity set to 0 goes with an element count of 0 on that path (size <= capacity); (V3) both cstl_vector_at and cstl_vector_at_const; (V4) path-sensitive: count stores / xtor calls only where the capacity as it stands on that path covers the request; V2/V7 are judged with private helpers inlined (allocation and commit may be split); (V14) every store / effectful call made by the assertion-enabled build is also made by the NDEBUG build (no work inside assert()). Constructor/destructor exactly-once counts and byte preservation beyond realloc's "
          "contract are NOT decided.",
     technique="no-wrap obligations by dominating-facts entailment over inlined LLVM IR; allocator-result discipline; structural agreement rules")
 CLAIMS['C10'] = dict(
@@ -56,7 +56,7 @@ CLAIMS['C14'] = dict(
          "stored only under beg <= end and a wrap-free off + end <= nm, rejected ranges abort; (A4) at() returns only under i < len, "
          "aborts only under len <= i, and addresses element off + i; (A5) release hands back only an external, uniquely referenced "
          "buffer -- the descriptor's own buffer pointer, never a pointer into it -- and resets the object there, otherwise reports NULL and changes nothing; (A6) array code never frees/allocates "
-         "directly and shares exactly when the two objects differ. (A7) alloc stores exactly the buffer address by which release recognises a library-owned buffer; (A8) every store / effectful call made by the assertion-enabled build is also made by the NDEBUG build (no work inside assert()). History-level 'released exactly once' rests on C05.",
+         "directly and shares exactly when the two objects differ. (A7) alloc stores exactly the buffer address by which release recognises a library-owned buffer; (A9) slice and unslice write the same members of the destination view object; (A8) every store / effectful call made by the assertion-enabled build is also made by the NDEBUG build (no work inside assert()). History-level 'released exactly once' rests on C05.",
     technique="path-sensitive typestate with a store/load model + no-wrap obligations + dominating facts over inlined LLVM IR")
 
 CLAIMS['C16'] = dict(
@@ -94,7 +94,7 @@ CLAIMS['C03'] = dict(
          "otherwise (path-sensitive, inlined); (L3) the cleaner relocates each node by its own key with the pending geometry, detaches "
          "the chain first and marks the bucket clean on every dirty path (path-sensitive: an empty dirty bucket too); (L4) the element count moves exactly with chain insertions "
          "and splices; (L5) resize forces the old rehash, then flips the clean bit, then records the pending geometry on every path (a flip is never left without a pending rehash), adopts a geometry without sweeping only on the very first resize, the added buckets are exactly [count read after the forced rehash, requested count), new buckets "
-         "empty and clean; (L6) find calls the caller's visit only under key equality and records a candidate as its result only once the visit accepted it (or none was given); (L7) the bucket-array byte size cannot wrap; (L8) the bucket array is only grown, or cut to the (effective) bucket count after the forced rehash; (L9) swap exchanges every member (an exchange skipped on some path only where the members are known equal); (L10) the sweep index is advanced only past a bucket that was just cleaned or is known to carry the table's clean stamp, and is never set to anything but 0, its own value + 1 or a local copy advanced under the same condition; (L11) a key is never narrowed; (L12) every store / effectful call made by the assertion-enabled build is also made by the NDEBUG build (no work inside assert()). "
+         "empty and clean; (L6) find calls the caller's visit only under key equality and records a candidate as its result only once the visit accepted it (or none was given); (L7) the bucket-array byte size cannot wrap; (L8) the bucket array is only grown, or cut to the (effective) bucket count after the forced rehash; (L9) swap exchanges every member (an exchange skipped on some path only where the members are known equal); (L10) the sweep index is advanced only past a bucket that was just cleaned or is known to carry the table's clean stamp, and is never set to anything but 0, its own value + 1 or a local copy advanced under the same condition; (L11) a key is never narrowed; (L13) an access through a walk cursor over chain links sits under the cursor's != NULL test; (L12) every store / effectful call made by the assertion-enabled build is also made by the NDEBUG build (no work inside assert()). "
          "That the sweep's arithmetic visits every bucket, chain contents over histories, are NOT decided.",
     technique="role discovery by effect + path-sensitive typestate over inlined LLVM IR + dominance/ordering rules + no-wrap obligations")
 
@@ -111,7 +111,7 @@ CLAIMS['C13'] = dict(
          "function that writes a node link also maintains the same list's tail pointer (or re-initialises that list); (N3) swap "
          "re-anchors an empty list's tail to its own head link, reading the count after the swap; (N4) foreach reads the successor "
          "before the visit and propagates the first non-zero result; (N5) count is adjusted exactly once per primitive, concat adds "
-         "once and re-initialises the source; (N6) the tail is only ever set to the head link, another tail, or a node known to exist; (N7) swap exchanges every member; (N8) push_front / push_back / insert_after pass the anchor after which the primitive links; (N9) callbacks get the context supplied with them and their int result is never narrowed; (N10) the unlink primitive re-points the tail at the predecessor when it removes the last node; concat re-points the destination tail only for a non-empty source; (N8, delegation) push_back/push_front delegating to insert_after do not pass an untested result of front()/back() (NULL for an empty list); (N11) every store / effectful call made by the assertion-enabled build is also made by the NDEBUG build (no work inside assert()). That reverse / sort / merge produce the right order is NOT decided.",
+         "once and re-initialises the source; (N6) the tail is only ever set to the head link, another tail, or a node known to exist; (N7) swap exchanges every member; (N8) push_front / push_back / insert_after pass the anchor after which the primitive links; (N9) callbacks get the context supplied with them and their int result is never narrowed; (N10) the unlink primitive re-points the tail at the predecessor when it removes the last node; concat re-points the destination tail only for a non-empty source; (N12) erase_after / pop_front return the element of the node the unlink primitive handed back (or NULL); (N8, delegation) push_back/push_front delegating to insert_after do not pass an untested result of front()/back() (NULL for an empty list); (N11) every store / effectful call made by the assertion-enabled build is also made by the NDEBUG build (no work inside assert()). That reverse / sort / merge produce the right order is NOT decided.",
     technique="documentation-contract rule (AST + IR return values) + field-effect rule + dominating facts + typestate over LLVM IR")
 
 CLAIMS['C01'] = dict(
@@ -145,7 +145,7 @@ CLAIMS['C11'] = dict(
     text="Thin by design: decides only clauses with a type- or shape-level necessary condition: (X1) no size_t count/index is "
          "narrowed in the raw-array routines; (X2) for every selector value - each enumerator and values outside the enumeration - exactly one sort of the caller's array is reached, "
          "a re-dispatch landing on a directly handled selector (path-sensitive, independent of switch / if-chain form); (X3) the sift-down reads computed child elements only under child < count; "
-         "(X4) linear find returns the ascending loop's index under cmp == 0, else -1; (X5) the quicksort pivot index is proven below count per alternative, or refuted by folding the index expression over rand()'s range (no verdict otherwise); (X6) every comparison call gets the context supplied with the function and its int result is never narrowed; (X7) every store / effectful call made by the assertion-enabled build is also made by the NDEBUG build (no work inside assert()). (X8) a binary-search bound stepped down by one is either compared as a signed value or stepped only where known non-zero. 'Sorted permutation', 'search finds iff "
+         "(X4) linear find returns the ascending loop's index under cmp == 0, else -1; (X5) the quicksort pivot index is proven below count per alternative, or refuted by folding the index expression over rand()'s range (no verdict otherwise); (X6) every comparison call gets the context supplied with the function and its int result is never narrowed; (X7) every store / effectful call made by the assertion-enabled build is also made by the NDEBUG build (no work inside assert()). (X8) a search / reverse bound stepped down by one is either compared as a signed value or stepped only where known non-zero; (X9) a routine given a swap function (and its private helpers) moves elements only by calling it. 'Sorted permutation', 'search finds iff "
          "present' and partition bounds are NOT decided.",
     technique="taint + truncation rule, switch coverage, dominating facts over LLVM IR; enumerators from the AST")
 
@@ -163,7 +163,7 @@ CLAIMS['C06'] = dict(
          "three counters are _Atomic and every access is an atomic instruction (unpublished initialisation excepted); (A2) the "
          "decrements that gate destruction (judged on the inlined entry points, so helper-wrapped ones count) are RMWs with ordering >= acq_rel whose own result is tested, or release-ordered with an acquire fence dominating everything done under the tested result; (A3) the spin flag is "
          "released on every path and nothing is called while it is held; (A4) every RMW on the owner count in the speculative-"
-         "increment function lies inside the flag-held region; (A5) after a function's reference decrement the block is only "
+         "increment function lies inside the flag-held region, and that function makes no plain access to the managed pointer of the block it is only probing; (A5) after a function's reference decrement the block is only "
          "freed, never accessed. Linearizability, progress and race freedom over schedules are NOT decided.",
     technique="atomicity/ordering rules over LLVM IR + AST qualifiers + typestate for flag pairing and use-after-release")
 
